@@ -347,6 +347,8 @@ TRUSTED = [
     "Coq 8.16.1 kernel + vm_compute (no native_compute)",
     "no axioms: Print Assumptions reports 'Closed under the global context' for every property theorem",
     "specification models coq/Base/Int32.v, coq/Factorio/Circuit.v (Factorio 2.0 rules as stated in DESIGN.md section 5), coq/Facto/*.v",
-    "py/bpexport.py (blueprint JSON -> Coq term, exporter defaults, network ids), py/facto_ast.py (printer / Coq export of the generator AST)",
+    "py/bpexport.py (blueprint JSON -> Coq term: entity configurations with exporter defaults, wire list; the network ids are NOT trusted: "
+    "bp_nets_ok (coq/Factorio/Nets.v) re-derives them from the wires inside every kernel-checked case), "
+    "py/facto_ast.py / py/facto_rich.py (printer, Coq export and specification-side elaboration of the generator AST)",
     "py/py2v.py translator for coq/Gen/*.v",
 ]
